@@ -6,14 +6,14 @@ set -u
 dir="$(readlink -f "$1")"; crate="$2"; file="$3"; filter="$4"; shift 4
 base=/var/tmp/vs-verify
 if [ ! -d "$base/repo" ]; then mkdir -p "$base"; git -C /repo worktree add --detach "$base/repo" HEAD >/dev/null || exit 3; fi
-cd "$base/repo" && git checkout -q -- . && git clean -qfd -e target && git checkout -q --detach "$(git -C /repo rev-parse HEAD)" || exit 3
+cd "$base/repo" && git reset -q --hard && git clean -qfd -e target && git checkout -q --detach "$(git -C /repo rev-parse HEAD)" || exit 3
 cat "$dir/demo.rs" >> "$file"
 cargo test --offline -p "$crate" --lib "$@" "$filter" >"$dir/lead_demo_clean.log" 2>&1; a=$?
-git apply "$dir/patch.diff" 2>/dev/null || git apply --3way "$dir/patch.diff" 2>/dev/null && git reset -q || { echo "PATCH DOES NOT APPLY"; git checkout -q -- .; exit 3; }
+git apply "$dir/patch.diff" 2>/dev/null || git apply --3way "$dir/patch.diff" 2>/dev/null && git reset -q || { echo "PATCH DOES NOT APPLY"; git reset -q --hard; exit 3; }
 cargo test --offline -p "$crate" --lib "$@" "$filter" >"$dir/lead_demo_changed.log" 2>&1; b=$?
 git checkout -q -- "$file"
 cargo test --offline -p "$crate" --lib "$@" >"$dir/lead_existing_tests.log" 2>&1; c=$?
-git checkout -q -- . ; git clean -qfd -e target
+git reset -q --hard ; git clean -qfd -e target
 echo "demo_clean_exit=$a demo_changed_exit=$b existing_tests_exit=$c"
 grep -h "test result" "$dir/lead_demo_clean.log" | head -2; grep -h "test result" "$dir/lead_demo_changed.log" | head -2; grep -h "test result" "$dir/lead_existing_tests.log" | head -4
 [ $a -eq 0 ] && [ $b -ne 0 ] && [ $c -eq 0 ]
